@@ -28,6 +28,8 @@ def gen_cases(seed, tier):
                     batches = [batches[(k + i) % len(batches)] for i in range(3)]
                 for b in [0] + batches:
                     k += 1
+                    if rows * max(cols, 1) * dim > 1600:      # keeps one event's permutation map small enough to validate in seconds
+                        continue
                     if tier == 'quick' and rows >= 16 and (k % 3):
                         continue
                     nth = [0, 1, 2, 3, 7, 16][k % 6]
